@@ -273,6 +273,13 @@ def run(ctx: Ctx) -> int:
     prod_cases.append([((1, 0, 1, 0), 0), ((2, 0, 0, 0), 0), ((1, 0, -1, 0), 0), ((0, 0, 1, 0), 0)] * 50)
     prod_cases.append([((1, 1, 0, 0), 0)] * 20)
     prod_cases.append([((1, 1, 0, 0), 0)] * 64)       # non-Clifford growth: the kernel-checked witness of C09_wrap_refuted
+    # every axis length around the width of int32 (20..40 factors and the powers of two nearby) for the stabiliser-type factors 2, 2+2i,
+    # 1+i, 1-i: whichever way the scan brackets or batches the axis, the product stays exact
+    for nfac in (list(range(20, 41)) + [47, 48, 49, 63, 65, 96, 127, 128, 129] if quick else list(range(2, 140))):
+        for fac in ((2, 0, 0, 0), (2, 0, 2, 0), (1, 0, 1, 0), (1, 0, -1, 0)):
+            if not quick or fac[0] == 2 or nfac % 3 == 0:
+                prod_kinds.append("unit")
+                prod_cases.append([(fac, 0)] * nfac)
     prod_impl = []
     for l in prod_cases:
         arr = ExactScalarArray(jnp.array([c for c, _ in l], dtype=jnp.int32).reshape(len(l), 4), jnp.array([p for _, p in l], dtype=jnp.int32))
